@@ -7,6 +7,10 @@ import Scc.Sexp
 import Scc.Fun.Syntax
 import Scc.Core.Syntax
 import Scc.AxCut.Syntax
+import Scc.Fun2Core.Model
+import Scc.Core.Uniquify
+import Scc.Core.Focus
+import Scc.Core2AxCut.Model
 
 open Scc
 
@@ -35,6 +39,14 @@ def dispatch (line : String) : IO String := do
   let line := line.trimAscii.toString
   match line.splitOn " " with
   | "rt" :: rest => pure (Scc.Runtime.handleLineCur (" ".intercalate rest))
+  | ["stage", pass, file] => do
+    let text ← IO.FS.readFile file
+    match pass with
+    | "fun2core" => pure (Scc.Fun2Core.runLine text)
+    | "uniquify" => pure (Scc.Core.runLineUniquify text)
+    | "focus" => pure (Scc.Core.runLineFocus text)
+    | "shrink" => pure (Scc.Core2AxCut.runLine text)
+    | _ => pure "ERR unknown pass"
   | ["sx", kind, file] => do
     let text ← IO.FS.readFile file
     pure (roundtrip kind text)
